@@ -304,7 +304,7 @@ def main(argv=None):
         # smallest case first (cheap stand-in for shrinking across collected failures)
         vs.sort(key=lambda v: len(json.dumps(v["case"])))
         v = vs[0]
-        rdir = os.path.join(VERIF, "replays", prop)
+        rdir = os.path.join(os.environ.get("VF_REPLAY_DIR") or os.path.join(VERIF, "replays"), prop)
         os.makedirs(rdir, exist_ok=True)
         path = os.path.join(rdir, f"{b.replace('/', '_')}-{chash(v['case'])}.json")
         with open(path, "w") as f:
@@ -339,8 +339,9 @@ def main(argv=None):
         "wall_s": round(wall, 2),
         "violations": len(new_buckets),
     }
-    os.makedirs(os.path.join(VERIF, "evidence"), exist_ok=True)
-    with open(os.path.join(VERIF, "evidence", f"{prop}.json"), "w") as f:
+    evdir = os.environ.get("VF_EVIDENCE_DIR") or os.path.join(VERIF, "evidence")
+    os.makedirs(evdir, exist_ok=True)
+    with open(os.path.join(evdir, f"{prop}.json"), "w") as f:
         json.dump(ev, f, indent=1, sort_keys=True)
     print(
         f"{prop} tier={a.tier} seed={seed} evaluations={total.evaluations} "
